@@ -21,12 +21,13 @@ MIN_NONTRIVIAL_FRACTION = 0.5
 RULE = (
     'Finite lattice (grid step, k): for each grid step in {1, 0.5, 0.1, '
     '0.2, 0.3, 2.5, 5} mm and two classified datasets scaled so that the '
-    'curves span >= 40 levels including negative ones, EVERY integer k '
+    'curves span >= 40 levels including negative ones (plus one dataset 1500 '
+    'mm below the surface on a 0.01 mm grid: level numbers around -150000), EVERY integer k '
     'whose level lies on the assembled curve is used as reference, spelled '
     'as repr(k*step), as the decimal text a user types and in scientific '
     'notation, for both the '
     'rise and the recession curve; plus the off-grid references (k+1/2) '
-    'step and (k+1/4) step for every k, and no reference; and every on-grid '
+    'step, (k+1/4) step and (k+1/100) step for every k, and no reference; and every on-grid '
     'reference again as the SECOND assembly of the curve (after a run without '
     'reference, after a run with another level).  Oracle: on-grid '
     '-> the command succeeds and the master curve is 0 at level k (1e-9 of '
@@ -68,6 +69,10 @@ def BOUND(tier):
 
 
 def dataset(step, which):
+    # dataset 2 is dataset 0 with the water table 1500 mm below the surface
+    # (level numbers of the order 1e5 on a fine grid)
+    deep = 1500.0 if which == 2 else 0.0
+    which = which % 2
     ds = events.build(WORDS[which], SHAPES[which], 2.0, 3600, 18)
     if ds is None:
         raise InternalError('C09 dataset %d not in the family' % which)
@@ -75,7 +80,7 @@ def dataset(step, which):
     lo, hi = min(ds['level']), max(ds['level'])
     c = step * 72.0 / (hi - lo)
     mid = lo + 0.4375 * (hi - lo)
-    ds['level'] = [(z - mid) * c for z in ds['level']]
+    ds['level'] = [(z - mid) * c - deep for z in ds['level']]
     s, j = ds['thresholds']
     ds['thresholds'] = (s, j * c)
     return ds
@@ -142,15 +147,20 @@ def spelling(kind, k, step):
     if kind == 'quarter':
         return format((decimal.Decimal(k) + decimal.Decimal('0.25')) * d,
                       'f')
+    if kind == 'hundredth':
+        return format((decimal.Decimal(k) + decimal.Decimal('0.01')) * d,
+                      'f')
     raise InternalError(kind)
 
 
 def spaces(tier):
     out = []
     vias = ['fn', 'cli']
-    for step in (STEPS if tier == 'quick' else STEPS + MORE_STEPS):
+    for step in (STEPS + [0.01] if tier == 'quick'
+                 else STEPS + [0.01] + MORE_STEPS):
         index = []
-        for which in range(len(WORDS)):
+        for which in (range(len(WORDS)) if step != 0.01
+                      else (2,)):
             for curve in ('rise', 'recession'):
                 try:
                     ks = curve_levels(step, which, curve)
@@ -159,7 +169,8 @@ def spaces(tier):
                     for via in vias:
                         index.append((which, curve, None, 'none', via, None))
                     continue
-                if len(ks) < 40 or ks[0] >= 0 or ks[-1] <= 0:
+                if len(ks) < 40 or (which != 2 and (ks[0] >= 0
+                                                    or ks[-1] <= 0)):
                     raise InternalError(
                         'C09 dataset %d: %s curve at step %r spans only '
                         'levels %r..%r' % (which, curve, step,
@@ -168,7 +179,7 @@ def spaces(tier):
                     index.append((which, curve, None, 'none', via, None))
                     for k in ks:
                         for sp in ('repr', 'decimal', 'sci', 'half',
-                                   'quarter'):
+                                   'quarter', 'hundredth'):
                             index.append((which, curve, k, sp, via, None))
                         # the same command as the SECOND assembly of that
                         # curve: after a run without reference and after a
